@@ -298,6 +298,17 @@ func (c *Ctx) Sharded(n int, onCrash func(ci CrashInfo, s *Stats), args ...strin
 	return total
 }
 
+// EngineDir is the directory of the engine sources this binary was built
+// from (its oracle scripts live there); Root/engine if that is gone.
+func EngineDir() string {
+	_, file, _, _ := runtime.Caller(0)
+	d := filepath.Dir(filepath.Dir(filepath.Dir(file)))
+	if _, err := os.Stat(filepath.Join(d, "go.mod")); err == nil {
+		return d
+	}
+	return Root + "/engine"
+}
+
 // OutDir is where evidence/ and replays/ are written (VERIF_OUT overrides it
 // for runs against mutated copies, so that they do not clobber real evidence).
 func OutDir() string {
